@@ -39,12 +39,20 @@ func c20Options(c *Ctx) {
 		c.R.Errorf("anchor s3db.New not found")
 		return
 	}
-	syn := c.P.Syntax(fnObj.Object().(*types.Func))
-	if syn == nil {
+	newSyn := c.P.Syntax(fnObj.Object().(*types.Func))
+	if newSyn == nil {
 		c.R.Errorf("no syntax for s3db.New")
 		return
 	}
 	c.R.SawFunc(core.FuncName(fnObj))
+	// the option loop may have been split out of New into a helper
+	loopFn := optionLoopFunc(c, fnObj)
+	syn := newSyn
+	if loopFn != fnObj && loopFn.Object() != nil {
+		if s2 := c.P.Syntax(loopFn.Object().(*types.Func)); s2 != nil {
+			syn = s2
+		}
+	}
 	// the option switch: the switch with the most string-literal cases
 	var sw *ast.SwitchStmt
 	best := 0
@@ -77,8 +85,8 @@ func c20Options(c *Ctx) {
 		if cl.List == nil {
 			hasDefault = true
 			for _, st := range cl.Body {
-				if r, ok := st.(*ast.ReturnStmt); ok && len(r.Results) == 2 {
-					if id, ok := r.Results[1].(*ast.Ident); !ok || id.Name != "nil" {
+				if r, ok := st.(*ast.ReturnStmt); ok && len(r.Results) >= 1 {
+					if id, ok := r.Results[len(r.Results)-1].(*ast.Ident); !ok || id.Name != "nil" {
 						defaultErr = true
 					}
 				}
@@ -93,14 +101,16 @@ func c20Options(c *Ctx) {
 	c.R.Cond(hasDefault && defaultErr, rule, "s3db.New: unknown options are an error", c.P.Pos(sw.Pos()), "the option switch has an error-returning default", "an unknown option is silently accepted (no error-returning default in the option switch)")
 	// usage text: the longest string literal in New mentioning "usage"
 	usage := ""
-	ast.Inspect(syn.Decl, func(n ast.Node) bool {
-		if bl, ok := n.(*ast.BasicLit); ok && bl.Kind == token.STRING {
-			if s, err := strconv.Unquote(bl.Value); err == nil && strings.Contains(s, "usage") && len(s) > len(usage) {
-				usage = s
+	for _, d := range []ast.Node{syn.Decl, newSyn.Decl} {
+		ast.Inspect(d, func(n ast.Node) bool {
+			if bl, ok := n.(*ast.BasicLit); ok && bl.Kind == token.STRING {
+				if s, err := strconv.Unquote(bl.Value); err == nil && strings.Contains(s, "usage") && len(s) > len(usage) {
+					usage = s
+				}
 			}
-		}
-		return true
-	})
+			return true
+		})
+	}
 	re := regexp.MustCompile(`(?m)^\s*\[?\s*([a-z][a-z0-9_]*)\s*[=,\]]`)
 	usageOpts := map[string]bool{}
 	for _, m := range re.FindAllStringSubmatch(usage, -1) {
@@ -160,7 +170,7 @@ func c20Options(c *Ctx) {
 	}
 	// duplicates: a map lookup of the option name with an error return precedes the switch
 	dup := false
-	for _, b := range fnObj.Blocks {
+	for _, b := range loopFn.Blocks {
 		iff, ok := b.Instrs[len(b.Instrs)-1].(*ssa.If)
 		if !ok {
 			continue
@@ -183,6 +193,26 @@ func c20Options(c *Ctx) {
 		}
 	}
 	c.R.Cond(dup, rule, "s3db.New: duplicated options are an error", c.P.Pos(syn.Decl.Pos()), "a seen-set lookup with an error return guards every option", "a repeated option is not rejected")
+}
+
+
+// optionLoopFunc returns the function of New's scope that holds the option loop (the seen-set
+// lookup): New itself, or a helper split out of it.
+func optionLoopFunc(c *Ctx, newFn *ssa.Function) *ssa.Function {
+	for _, f := range c.Scope(newFn).Funcs {
+		for _, b := range f.Blocks {
+			for _, in := range b.Instrs {
+				if l, ok := in.(*ssa.Lookup); ok && l.CommaOk {
+					if m, ok := l.X.Type().Underlying().(*types.Map); ok {
+						if _, isStruct := m.Elem().Underlying().(*types.Struct); isStruct {
+							return f
+						}
+					}
+				}
+			}
+		}
+	}
+	return newFn
 }
 
 func c20IntParse(c *Ctx) {
@@ -767,6 +797,7 @@ func c20DupName(c *Ctx) {
 	if fn == nil {
 		return
 	}
+	fn = optionLoopFunc(c, fn)
 	// the seen-set lookup
 	var lk *ssa.Lookup
 	for _, b := range fn.Blocks {
@@ -1488,4 +1519,232 @@ func c20ListGrammar(c *Ctx) {
 		}
 	}
 	c.R.Cond(good, rule, "parse.Delimited: no trailing delimiter is consumed", c.P.Pos(f.Pos()), "every successful return has a term as the last committed consumption", why)
+}
+
+// ---- C20.validate-before-open: a rejected CREATE has not touched the store ------------------------------
+
+func init() {
+	register(&Rule{Name: "C20.validate-before-open", Min: 1, Run: c20ValidateBeforeOpen,
+		Doc: "in s3db.New no check that can reject the module arguments is reachable from the OpenKV call: opening a writable table merges and commits the versions it finds, so a rejection afterwards has already written objects"})
+	byProp["C20"] = append(byProp["C20"], "C20.validate-before-open")
+	explain["C20"] += " validate-before-open: 'rejected … and no object written' — kv.Open of a writable table that lists more than one current version merges them and commits (node, version, merged/ copies, DELETEs), so whatever can reject the arguments has to run before OpenKV. In New (and the helpers split out of it) no call that takes a value derived from the argument list and can answer with an error (a repository function or strconv's parsers) is reachable from the OpenKV call, and the columns check (convertSchema) exists."
+}
+
+func c20ValidateBeforeOpen(c *Ctx) {
+	const rule = "C20.validate-before-open"
+	fn := mustFunc(c, "", "", "New")
+	open := mustFunc(c, "", "", "OpenKV")
+	conv := mustFunc(c, "", "", "convertSchema")
+	if fn == nil || open == nil || conv == nil {
+		return
+	}
+	name := core.FuncName(fn)
+	sc := c.Scope(fn)
+	var openCall ssa.CallInstruction
+	sawConv := false
+	for _, call := range sc.Calls() {
+		switch call.Common().StaticCallee() {
+		case open:
+			openCall = call
+		case conv:
+			sawConv = true
+		}
+	}
+	if openCall == nil || !sawConv {
+		c.R.Unk(rule, name+": arguments are judged before the store is opened", c.P.Pos(fn.Pos()), "OpenKV / convertSchema call not found in New")
+		return
+	}
+	var argsParam ssa.Value
+	for _, p := range fn.Params {
+		if sl, ok := p.Type().Underlying().(*types.Slice); ok {
+			if b, ok := sl.Elem().Underlying().(*types.Basic); ok && b.Kind() == types.String {
+				argsParam = p
+			}
+		}
+	}
+	if argsParam == nil {
+		c.R.Unk(rule, name+": arguments are judged before the store is opened", c.P.Pos(fn.Pos()), "New has no []string parameter")
+		return
+	}
+	after := func(x ssa.Instruction) bool {
+		a, b, ok := sc.Common(openCall, x)
+		if !ok {
+			return false
+		}
+		if a.Block() == b.Block() {
+			ia, ib := -1, -1
+			for i, in := range a.Block().Instrs {
+				if in == a {
+					ia = i
+				}
+				if in == b {
+					ib = i
+				}
+			}
+			if ib > ia {
+				return true
+			}
+			// earlier in the same block: only after the open if the block is in a loop
+			for _, s := range a.Block().Succs {
+				if an.ReachableFromBlock(s, a.Block(), nil) {
+					return true
+				}
+			}
+			return false
+		}
+		return an.ReachableFromBlock(a.Block(), b.Block(), nil)
+	}
+	n := 0
+	var bad []string
+	for _, call := range sc.Calls() {
+		cal := call.Common().StaticCallee()
+		if cal == nil || cal == open || !an.ReturnsError(cal) {
+			continue
+		}
+		pk := an.PkgPathOf(cal)
+		if !(strings.HasPrefix(pk, core.ModPath) || pk == "strconv") {
+			continue
+		}
+		fromArgs := false
+		for _, a := range call.Common().Args {
+			if b, ok := a.Type().Underlying().(*types.Basic); !ok || b.Kind() != types.String {
+				continue
+			}
+			var dep func(v ssa.Value, d int)
+			dep = func(v ssa.Value, d int) {
+				an.DependsOn(v, func(w ssa.Value) bool {
+					if w == argsParam {
+						fromArgs = true
+					}
+					if p, isP := w.(*ssa.Parameter); isP && d < 4 {
+						if up := sc.ArgOfParam(p); up != ssa.Value(p) {
+							dep(up, d+1)
+						}
+					}
+					return false
+				})
+			}
+			dep(a, 0)
+		}
+		if !fromArgs {
+			continue
+		}
+		n++
+		if after(call) {
+			bad = append(bad, calleeLabel(call)+" at "+c.P.Pos(call.Pos()))
+		}
+	}
+	sort.Strings(bad)
+	c.R.Stats["C20.validate-before-open.checks"] = n
+	if n < 3 {
+		c.R.Errorf("only %d argument checks found in New (3 confirmed by hand: convertSchema and two ParseInt)", n)
+	}
+	c.R.Cond(len(bad) == 0, rule, name+": arguments are judged before the store is opened", c.P.Pos(openCall.Pos()),
+		fmt.Sprintf("%d checks of argument text, none reachable from the OpenKV call", n),
+		"reachable from the OpenKV call: "+strings.Join(bad, "; ")+" — over a prefix with two unmerged versions the open has merged and committed (new node, new version, copies under merged/, DELETEs) before the statement is rejected")
+}
+
+// ---- C20.seq-whitespace: layout of a valid specification does not matter ------------------------------
+
+func init() {
+	register(&Rule{Name: "C20.seq-whitespace", Min: 1, Run: c20SeqWhitespace,
+		Doc: "typestate of parse.SeqWS: whitespace is skipped in front of every element and behind the last one, so that the matchers that follow a sequence (a delimiter, the end of input), which do not skip blanks themselves, see the next token"})
+	byProp["C20"] = append(byProp["C20"], "C20.seq-whitespace")
+	explain["C20"] += " seq-whitespace: the columns grammar is built from SeqWS(...) sequences; Exact(\",\") in Delimited and End() compare the remaining text as it is. A valid specification is therefore accepted in every layout only if the sequence combinator leaves no blanks behind: walking its closure with the state 'blanks skipped since the last consumption', every element is tried in the skipped state and every successful return is reached in it (or with no element). The clause is moot, and the rule says so instead of firing, if the terminal matchers (Parser.Exact, Parser.CI, End) skip blanks themselves."
+}
+
+type wsState struct {
+	s   int // 0 nothing yet, 1 blanks skipped, 2 an element was consumed and no blanks skipped since
+	bad bool
+}
+
+func (w wsState) Key() string { return fmt.Sprintf("%d/%v", w.s, w.bad) }
+
+func c20SeqWhitespace(c *Ctx) {
+	const rule = "C20.seq-whitespace"
+	outer := mustFunc(c, "sql/parse", "", "SeqWS")
+	if outer == nil {
+		return
+	}
+	if len(outer.AnonFuncs) != 1 {
+		c.R.Unk(rule, "parse.SeqWS: shape", c.P.Pos(outer.Pos()), "expected SeqWS(fns...) to return one closure")
+		return
+	}
+	f := outer.AnonFuncs[0]
+	// do the terminals skip blanks themselves?
+	callsSkip := func(fn *ssa.Function) bool {
+		if fn == nil {
+			return false
+		}
+		for _, call := range an.Calls(fn) {
+			if calleeLabel(call) == "SkipWS" {
+				return true
+			}
+		}
+		return false
+	}
+	end := c.P.LookupFunc("sql/parse", "", "End")
+	endSkips := end != nil && len(end.AnonFuncs) == 1 && callsSkip(end.AnonFuncs[0])
+	if callsSkip(c.P.LookupFunc("sql/parse", "*Parser", "Exact")) && callsSkip(c.P.LookupFunc("sql/parse", "*Parser", "CI")) && endSkips {
+		c.R.OK(rule, "parse.SeqWS: no blanks are left between tokens", c.P.Pos(f.Pos()), "the terminal matchers skip blanks themselves")
+		return
+	}
+	isElem := func(cl *ssa.Call) bool {
+		// a call of a parse.Func value that is not a static function: the element being tried
+		if cl.Call.IsInvoke() || cl.Call.StaticCallee() != nil {
+			return false
+		}
+		nt := an.NamedOf(cl.Call.Value.Type())
+		return nt != nil && nt.Obj().Name() == "Func" && len(cl.Call.Args) == 1
+	}
+	h := an.THooks{}
+	h.Instr = func(in ssa.Instruction, st0 an.TState) an.TState {
+		st := st0.(wsState)
+		if cl, ok := in.(*ssa.Call); ok {
+			switch {
+			case calleeLabel(cl) == "SkipWS":
+				st.s = 1
+			case isElem(cl):
+				if st.s != 1 {
+					st.bad = true
+				}
+			}
+		}
+		return st
+	}
+	h.Branch = func(iff *ssa.If, side bool, st0 an.TState) an.TState {
+		st := st0.(wsState)
+		cond, neg := an.StripNot(iff.Cond)
+		if cl, ok := cond.(*ssa.Call); ok && isElem(cl) && side != neg {
+			st.s = 2
+		}
+		return st
+	}
+	exits := an.WalkTypestate(f, wsState{}, h, nil)
+	good := len(exits) > 0
+	why := ""
+	n := 0
+	for _, ex := range exits {
+		if len(ex.Ret.Results) != 1 {
+			continue
+		}
+		if cb, isC := constBool(ex.Ret.Results[0]); isC && !cb {
+			continue
+		}
+		n++
+		st := ex.St.(wsState)
+		if st.bad {
+			good = false
+			why = "an element of a SeqWS sequence is tried without skipping the blanks in front of it: 'a, b' and ' a' stop being valid"
+		}
+		if st.s == 2 {
+			good = false
+			why = "SeqWS can return success at " + c.P.Pos(ex.Ret.Pos()) + " with blanks left behind its last element; the delimiter and end-of-input matchers that follow do not skip blanks, so 'id primary key , name' or a specification ending in 'not null ' is rejected while the compact spelling is accepted"
+		}
+	}
+	if n == 0 {
+		c.R.Unk(rule, "parse.SeqWS: no blanks are left between tokens", c.P.Pos(f.Pos()), "no successful return found")
+		return
+	}
+	c.R.Cond(good, rule, "parse.SeqWS: no blanks are left between tokens", c.P.Pos(f.Pos()), "blanks are skipped in front of every element and behind the last", why)
 }
